@@ -111,6 +111,21 @@ class ArraySlice(ctypes.Structure):
     ]
 
 
+def assert_fits(value: int, ctype) -> None:
+    """Raise an error if an integer cannot be represented by the given ctype,
+    instead of letting ctypes silently truncate it."""
+    num_bits = ctypes.sizeof(ctype) * 8
+    if ctype(-1).value < 0:  # signed
+        min_value, max_value = -(2 ** (num_bits - 1)), 2 ** (num_bits - 1) - 1
+    else:
+        min_value, max_value = 0, 2**num_bits - 1
+    if not min_value <= value <= max_value:
+        raise OverflowError(
+            f"value {value} cannot be encoded in {num_bits} bits "
+            f"(should be in [{min_value}, {max_value}])"
+        )
+
+
 class Command(ctypes.Structure):
     _pack_ = 1
     _fields_ = [
@@ -118,6 +133,11 @@ class Command(ctypes.Structure):
     ]
 
     def __init__(self, *args, **kwargs):
+        for cls in type(self).__mro__:
+            for field in cls.__dict__.get("_fields_", []):
+                value = kwargs.get(field[0])
+                if isinstance(value, int) and not isinstance(value, bool):
+                    assert_fits(value, field[1])
         try:
             super().__init__(*args, **kwargs)
         except TypeError as err:
